@@ -923,6 +923,56 @@ pub fn run(ctx: &mut Ctx, replay: Option<&str>) {
             let mut r = ctx.rng.fork(0x1_0000_0000 + i as u64);
             holder_hs.push(gen_holder_history(&mut r, ctx.tier));
         }
+        // issuer histories of calls whose PAYLOADS are byte-identical (nothing hidden, no decoys, same holder key) while the
+        // requested format changes from call to call; and the same claims again after each kind of refused call
+        for i in 0..ctx.tier.pick(8, 60) {
+            let mut r = ctx.rng.fork(0x5_0000_0000 + i as u64);
+            let (key, alg) = gen_issuer_key(&mut r);
+            let claims = gen_flow(&mut r, &tree_cfg(ctx.tier)).issue.claims;
+            let holder = if i % 3 == 0 { Some(KeyId::HolderEc) } else { None };
+            let st = match i % 3 { 0 => Strategy::None, 1 => Strategy::Custom(vec![]), _ => Strategy::Custom(vec!["$.no.such.claim".into()]) };
+            let fmts = [Fmt::Compact, Fmt::Json, Fmt::Json, Fmt::Compact, Fmt::Json, Fmt::Compact];
+            let mut calls: Vec<ICall> = vec![];
+            for (c, fmt) in fmts.iter().enumerate() {
+                let mut a = IssueArgs { claims: claims.clone(), strategy: st.clone(), holder, decoy: false, fmt: *fmt, key, alg: alg.clone(), queue: None };
+                if i % 4 == 3 && c == 3 {
+                    a.holder = Some(KeyId::HolderEd);
+                }
+                calls.push(ICall { args: a.clone(), class: "ok".into() });
+                if i % 2 == 1 && c == 1 {
+                    let mut bad = a.clone();
+                    bad.claims = if i % 4 == 1 { json!(["not", "an", "object"]) } else { json!({"iss": "x", "exp": 1, "o": {"...": 1}}) };
+                    calls.push(ICall { args: bad, class: if i % 4 == 1 { "non_object_claims".into() } else { "reserved_name".into() } });
+                }
+            }
+            calls.truncate(8);
+            issuer_hs.push(IssuerHistory { key, alg, calls });
+            ctx.count("issuer_history.identical_payloads_changing_format");
+        }
+        // holder histories on a credential with many disclosures: a presentation, a call that is refused for its key-binding
+        // arguments (another selection), the first presentation again
+        for i in 0..ctx.tier.pick(6, 40) {
+            let mut r = ctx.rng.fork(0x6_0000_0000 + i as u64);
+            let mut issue = gen_flow(&mut r, &tree_cfg(ctx.tier)).issue;
+            issue.claims = gen_wide_claims(&mut r, if i % 2 == 0 { 70 } else { 140 }, now());
+            issue.strategy = Strategy::All;
+            issue.decoy = i % 3 == 0;
+            issue.holder = Some(KeyId::HolderEc);
+            issue.fmt = if i % 2 == 0 { Fmt::Compact } else { Fmt::Json };
+            let inside = issue.claims.get("wide").is_some();
+            let wrap = |m: Value, l: Value| if inside { json!({"wide": m, "list": l}) } else { let mut o = m.as_object().cloned().unwrap(); o.insert("list".into(), l); Value::Object(o) };
+            let s_sel = wrap(json!({"m0001": true, "m0002": true}), json!([true, false, true]));
+            let t_sel = wrap(json!({"m0003": true, "m0004": true, "m0005": true}), json!([false, true]));
+            let plain = |v: &Value| PresentArgs::plain(v.as_object().cloned().unwrap_or_default());
+            let bad = match i % 3 { 0 => PresentArgs { sel: t_sel.as_object().cloned().unwrap(), nonce: Some("n".into()), aud: None, key: None, alg: None },
+                                    1 => PresentArgs { sel: t_sel.as_object().cloned().unwrap(), nonce: Some("n".into()), aud: Some("a".into()), key: Some(KeyId::HolderEc), alg: Some("ES512".into()) },
+                                    _ => PresentArgs { sel: t_sel.as_object().cloned().unwrap(), nonce: None, aud: Some("a".into()), key: Some(KeyId::HolderEc), alg: None } };
+            let calls = vec![HCall { args: plain(&s_sel), class: "plain".into() }, HCall { args: bad.clone(), class: if i % 3 == 1 { "kb_bad_alg".into() } else { "inconsistent_kb".into() } }, HCall { args: plain(&s_sel), class: "plain".into() },
+                             HCall { args: plain(&t_sel), class: "plain".into() }, HCall { args: bad, class: "inconsistent_kb".into() }, HCall { args: plain(&t_sel), class: "plain".into() }];
+            let fmt = issue.fmt;
+            holder_hs.push(HolderHistory { issue: Some(issue), input: None, fmt, calls });
+            ctx.count("holder_history.wide_credential_refused_call_between_equal_calls");
+        }
         // every kind of failing call between a key-bound presentation and an unbound one (and a second round with other
         // arguments): what a failing call leaves half-done must not reach the next one
         {
